@@ -12,7 +12,7 @@ def gen_history(rng, dynamic=True, big=False):
     size = 10 ** rng.uniform(-6, 0)
     kind, n, f = tissue.random_mesh(rng, kinds=kinds, size=size, aniso=rng.random() < 0.4, noise=rng.choice([0.0, 0.05]), place=rng.choice([0, 0, 1, 100]) * size)
     me = tissue.mean_edge(n, f)
-    band = rng.choice(["around", "tight", "coarse", "fine"])
+    band = rng.choice(["around", "tight", "coarse", "fine"]) if not big else rng.choice(["around", "tight"])
     if band == "around":
         lmin = me * rng.uniform(0.4, 0.7); lmax = 3 * lmin
     elif band == "tight":
@@ -20,7 +20,7 @@ def gen_history(rng, dynamic=True, big=False):
     elif band == "coarse":
         lmin = me * rng.uniform(1.1, 2.0); lmax = 3 * lmin
     else:
-        lmin = me * rng.uniform(0.12, 0.3); lmax = 3 * lmin
+        lmin = me * rng.uniform(0.2, 0.3); lmax = 3 * lmin
     swap = 1 if rng.random() < 0.6 else 0
     types = [rng.randrange(3) for _ in f]
     ev = []
@@ -33,7 +33,7 @@ def gen_history(rng, dynamic=True, big=False):
         if r < 0.30:
             ev.append("G %s %d" % (hx(rng.choice([0.02, 0.05, 0.1, 0.2, 0.4])), rng.randrange(1 << 30)))
         elif r < 0.38:
-            ev.append("S %s" % hx(rng.choice([0.5, 0.7, 1.3, 1.8, 2.5])))
+            ev.append("S %s" % hx(rng.choice([0.5, 0.7, 1.3, 1.8] if len(f) > 100 else [0.5, 0.7, 1.3, 1.8, 2.5])))
         elif r < 0.46:
             ev.append("A %d %s" % (rng.randrange(3), hx(rng.choice([0.3, 0.5, 2.0, 3.0]))))
         elif r < 0.56:
